@@ -41,15 +41,14 @@ def nontrivial(cb, xs, idx):
 def vq_cases(ctx, rng, scale, add, dist, failures):
     import torch
     from vector_quantize_pytorch import VectorQuantize
-    n = (30 if not ctx.thorough else 300) * scale
+    n = (36 if not ctx.thorough else 300) * scale
     for ci in range(n):
         d = rng.choice([1, 2, 3, 4])
-        heads = rng.choice([1, 1, 2, 3])
-        sep = heads > 1 and rng.random() < 0.5
-        cosine = rng.random() < 0.35
+        heads, sep = [(1, False), (2, False), (2, True), (3, False), (1, False), (3, True)][ci % 6]
+        cosine = (ci // 6) % 3 == 1
         K = rng.choice([1, 2, 3, 5, 8])
-        proj = rng.random() < 0.25
-        layout = rng.choice(['seq', 'seq', 'cfirst', 'image'])
+        proj = (ci // 3) % 4 == 3
+        layout = ['seq', 'cfirst', 'image', 'seq'][(ci // 2) % 4]
         exact = rng.random() < 0.5 and not proj and not cosine
         kw = dict(dim=(d * heads + (1 if proj else 0)), codebook_size=K, heads=heads, separate_codebook_per_head=sep, codebook_dim=d,
                   use_cosine_sim=cosine, decay=rng.choice([0.5, 0.8]), threshold_ema_dead_code=0,
@@ -69,17 +68,39 @@ def vq_cases(ctx, rng, scale, add, dist, failures):
         for mode in ('eval', 'train', 'frozen'):
             x = make_input(rng, torch, layout, kw['dim'], exact, vq if exact else None)
             vq.train(mode != 'eval')
+            # ---- specification side, from the PUBLIC interface only: channel-last tokens -> the module's own projection -> heads -> normalisation
+            with torch.no_grad():
+                xs = {'seq': x, 'cfirst': x.movedim(1, -1), 'image': x.movedim(1, -1).reshape(x.shape[0], -1, x.shape[1])}[layout]
+                xp = vq.project_in(xs)
+                b_, n_ = xp.shape[0], xp.shape[1]
+                xh = xp.reshape(b_, n_, heads, d)
+                if cosine:
+                    xh = torch.nn.functional.normalize(xh, p=2, dim=-1, eps=1e-6)
+                before = vqrec.cb_state(vq._codebook)
             try:
-                ret, recs = vqrec.record_call(vq, x, **({'freeze_codebook': True} if mode == 'frozen' else {}))
+                with torch.no_grad():
+                    out, idx, _ = vq(x, **({'freeze_codebook': True} if mode == 'frozen' else {}))
             except Exception as ex:
                 failures.append({'key': f'vq:exception:{type(ex).__name__}', 'what': f'VectorQuantize({kw}) {mode}: {ex!r}', 'case': dict(kw=kw)})
                 break
-            rec = recs[0]
-            for h in range(rec.H):
-                cb = rec.before['embed'][h]
+            idx_s = idx.reshape(b_, n_, heads) if heads > 1 else idx.reshape(b_, n_, 1)
+            out_s = {'seq': out, 'cfirst': out.movedim(1, -1), 'image': out.movedim(1, -1).reshape(b_, n_, -1)}[layout]
+            codes = []
+            for h in range(heads):
+                cb = before['embed'][h if sep else 0]
+                toks = xh[:, :, h].reshape(-1, d).double().tolist()
+                ids = idx_s[:, :, h].reshape(-1).tolist()
                 tol = Fraction(0) if exact else TOL_NAT
-                add(term(cosine, tol, cb, rec.xs[h], rec.idx[h], rec.quant[h], Fraction(0) if mode == 'eval' else TOL_Q),
-                    dict(kind='vq', kw=kw, mode=mode, head=h, exact=exact), nontrivial(cb, rec.xs[h], rec.idx[h]))
+                quant = None if proj else out_s.reshape(b_, n_, heads, d)[:, :, h].reshape(-1, d).double().tolist()
+                add(term(cosine, tol, cb, toks, ids, quant, Fraction(0) if mode == 'eval' else TOL_Q),
+                    dict(kind='vq', kw=kw, mode=mode, head=h, exact=exact, layout=layout), nontrivial(cb, toks, ids))
+                codes.append(torch.tensor(cb, dtype=torch.float32)[idx_s[:, :, h].clamp(min=0)])
+            if proj:
+                with torch.no_grad():
+                    want = vq.project_out(torch.cat(codes, dim=-1))
+                if not torch.allclose(want, out_s, atol=1e-5, rtol=1e-4):
+                    failures.append({'key': f'vq:projected-output:{mode}', 'what': f'VectorQuantize({kw}) {mode}: output differs from project_out(selected codes) by {(want - out_s).abs().max().item():g}',
+                                     'case': dict(kw=kw, mode=mode)})
             dist['vq_' + mode] += 1
             dist['exact' if exact else 'natural'] += 1
             dist['cosine'] += cosine
@@ -87,7 +108,7 @@ def vq_cases(ctx, rng, scale, add, dist, failures):
 
 
 def make_input(rng, torch, layout, dim, exact, vq=None):
-    b, n = rng.choice([(1, 1), (2, 3), (1, 5), (3, 2)])
+    b, n = rng.choice([(1, 1), (2, 3), (2, 5), (3, 2)])
     shape = {'seq': (b, n, dim), 'cfirst': (b, dim, n), 'image': (b, dim, 2, n)}[layout]
     if exact:
         x = vqrec.grid(rng, shape)
